@@ -67,6 +67,8 @@ _OOO_NAMESPACES = {
 _NUMBER_COLUMNS_REPEATED = "{" + _OOO_NAMESPACES["table"] + "}number-columns-repeated"
 _NUMBER_ROWS_REPEATED = "{" + _OOO_NAMESPACES["table"] + "}number-rows-repeated"
 _TABLE_ROW = "{" + _OOO_NAMESPACES["table"] + "}table-row"
+#: Elements that represent a cell; a covered cell is the (empty) place hidden by a cell merged with its neighbors.
+_TABLE_CELLS = tuple("{" + _OOO_NAMESPACES["table"] + "}" + name for name in ("table-cell", "covered-table-cell"))
 #: Elements that wrap rows, for example rows to repeat on each printed page or grouped rows.
 _TABLE_ROW_CONTAINERS = tuple(
     "{" + _OOO_NAMESPACES["table"] + "}" + name for name in ("table-header-rows", "table-row-group", "table-rows")
@@ -335,7 +337,7 @@ def ods_rows(source_ods_path, sheet=1):
                 location,
             )
         row = []
-        for table_cell in _findall(table_row, "table:table-cell", namespaces=_OOO_NAMESPACES):
+        for table_cell in (element for element in table_row if element.tag in _TABLE_CELLS):
             repeated_text = table_cell.attrib.get(_NUMBER_COLUMNS_REPEATED, "1")
             try:
                 repeated_count = int(repeated_text)
